@@ -528,9 +528,9 @@ def run_main(sim, plan):
             try:
                 got = edit_stack(store, section).get(name, expand=False)
             except Exception as e:  # noqa: BLE001
-                fail("roundtrip", f"read-after-set-raises:{cls}", f"get after set({name!r}, {value!r}) raised {type(e).__name__}: {e}")
+                fail("roundtrip", f"value-altered:{cls}", f"[read-after-set-raises] " + f"get after set({name!r}, {value!r}) raised {type(e).__name__}: {e}")
             if got != value:
-                fail("roundtrip", f"value-altered:{cls}", f"set({name!r}, {value!r}) in [{section}] then get (same process, before save) returns {got!r}")
+                fail("roundtrip", f"value-altered:{cls}", f"[value-altered] " + f"set({name!r}, {value!r}) in [{section}] then get (same process, before save) returns {got!r}")
         elif k == "remove":
             _, store, section, name = op
             present = name in model.mem[store].get(section, {})
@@ -549,9 +549,9 @@ def run_main(sim, plan):
                     st.save_changes()
                 except config.ParseConfigError as e:
                     # (save_changes re-reads the file first: an earlier save corrupted it)
-                    fail("roundtrip", f"unparseable:{worst_saved[0]}", f"save_changes of {sname} cannot re-read the file written by the previous save (value classes saved so far up to {worst_saved[0]}): {str(e)[:300]}")
+                    fail("roundtrip", f"value-altered:{worst_saved[0]}", f"[unparseable] " + f"save_changes of {sname} cannot re-read the file written by the previous save (value classes saved so far up to {worst_saved[0]}): {str(e)[:300]}")
                 except Exception as e:  # noqa: BLE001
-                    fail("roundtrip", f"save-raises:{cls}", f"save_changes of {sname} raised {type(e).__name__}: {e} after accepted sets (classes {sorted(set(pending_classes))})")
+                    fail("roundtrip", f"value-altered:{cls}", f"[save-raises] " + f"save_changes of {sname} raised {type(e).__name__}: {e} after accepted sets (classes {sorted(set(pending_classes))})")
             model.commit()
             worst_saved[0] = worst([worst_saved[0], cls])
             pending_classes.clear()
@@ -560,7 +560,7 @@ def run_main(sim, plan):
             try:
                 fresh_stores()
             except config.ParseConfigError as e:
-                fail("roundtrip", f"unparseable:{worst_saved[0]}", f"re-opening the stores failed after saving values of class {worst_saved[0]}: {str(e)[:300]}")
+                fail("roundtrip", f"value-altered:{worst_saved[0]}", f"[unparseable] " + f"re-opening the stores failed after saving values of class {worst_saved[0]}: {str(e)[:300]}")
             model.copy_disk_to_mem()
             pending_classes.clear()
         elif k == "check_all":
@@ -568,17 +568,20 @@ def run_main(sim, plan):
                 try:
                     got = read_all(stores[sname])
                 except Exception as e:  # noqa: BLE001
-                    fail("roundtrip", f"unparseable:{worst_saved[0]}", f"{sname}: the file written by save_changes cannot be loaded: {type(e).__name__}: {str(e)[:300]}; content {raw(t).get_bytes(stores[sname].file_name) if sname != 'branch' else b''!r}")
+                    fail("roundtrip", f"value-altered:{worst_saved[0]}", f"[unparseable] " + f"{sname}: the file written by save_changes cannot be loaded: {type(e).__name__}: {str(e)[:300]}; content {raw(t).get_bytes(stores[sname].file_name) if sname != 'branch' else b''!r}")
                 want = {s: o for s, o in model.disk[sname].items() if o or s in got}
                 for sec in sorted(set(want) | set(got), key=repr):
                     w, g = want.get(sec, {}), got.get(sec, {})
                     for name in sorted(set(w) | set(g)):
                         wv, gv = w.get(name), g.get(name)
                         if name == "c49.list" and isinstance(gv, str):
-                            gv = config.option_registry.get("c49.list").convert_from_unicode(None, _rawval(stores[sname], sec, name))
+                            try:
+                                gv = config.option_registry.get("c49.list").convert_from_unicode(None, _rawval(stores[sname], sec, name))
+                            except Exception as e:  # noqa: BLE001
+                                gv = f"<{type(e).__name__} while converting {_rawval(stores[sname], sec, name)!r}>"
                         if wv != gv:
                             cls = classify_value(wv) if wv is not None else worst_saved[0]
-                            fail("roundtrip", f"value-altered:{cls}", f"{sname} [{sec}] {name}: stored {wv!r}, read back after save + re-open {gv!r}")
+                            fail("roundtrip", f"value-altered:{cls}", f"[value-altered] " + f"{sname} [{sec}] {name}: stored {wv!r}, read back after save + re-open {gv!r}")
             state["saved_read"] = True
             sim.probe("check_all")
         elif k == "get":
@@ -596,9 +599,9 @@ def run_main(sim, plan):
                 cls = worst(pending_classes + [worst_saved[0]])
                 wcls = classify_value(want) if want is not None else "plain"
                 if wcls not in ("plain", "list"):
-                    fail("roundtrip", f"read-raises:{wcls}", f"get({name!r}) at {location} raised {type(e).__name__}: {str(e)[:200]}; stored value {want!r}")
+                    fail("roundtrip", f"value-altered:{wcls}", f"[read-raises] " + f"get({name!r}) at {location} raised {type(e).__name__}: {str(e)[:200]}; stored value {want!r}")
                 if cls != "plain" and isinstance(e, config.ParseConfigError):
-                    fail("roundtrip", f"unparseable:{cls}", f"after saving values of class {cls} the file cannot be parsed: {str(e)[:300]}")
+                    fail("roundtrip", f"value-altered:{cls}", f"[unparseable] " + f"after saving values of class {cls} the file cannot be parsed: {str(e)[:300]}")
                 fail("lookup", f"raises:{type(e).__name__}", f"get({name!r}, expand={expand}) at {location} raised {type(e).__name__}: {str(e)[:300]}; model value {want!r} from {src}")
             sim.probe("lookup")
             if got != want and got == model.value_from(want_c, name, expand, slash_on_empty=True)[0]:
@@ -607,7 +610,7 @@ def run_main(sim, plan):
             if got != want:
                 cls = classify_value(want) if want is not None else "plain"
                 if cls not in ("plain", "list"):
-                    fail("roundtrip", f"value-altered:{cls}", f"get({name!r}) at {location}: {got!r}, stored {want!r}")
+                    fail("roundtrip", f"value-altered:{cls}", f"[value-altered] " + f"get({name!r}) at {location}: {got!r}, stored {want!r}")
                 what = "wrong-value"
                 alt, alt_src = model.value_from(excl_c, name, expand)
                 raw_want, _ = model.value_from(want_c, name, False, unexpanded=True)
